@@ -165,8 +165,8 @@ theorem eval_call (O : Oracle) (i : Nat) (f : Expr) (as : List Expr) (σ : St) (
     | error x => rfl
     | ok avs => simp [evalArgs]
 
-theorem eval_namedexpr (O : Oracle) (i j : Nat) (s : String) (c : Ctx) (v : Expr) (σ : St) :
-    evalE O (.namedexpr i (.name j s c) v) σ = bindK (evalE O v) (fun x τ => (.ok x, τ.set s x)) σ := by
+theorem eval_namedexpr (O : Oracle) (i j : Nat) (s : String) (v : Expr) (σ : St) :
+    evalE O (.namedexpr i (.name j s .store) v) σ = bindK (evalE O v) (fun x τ => (.ok x, τ.set s x)) σ := by
   simp only [evalE, bindK]
   rcases evalE O v σ with ⟨r1, σ1⟩
   cases r1 <;> rfl
@@ -213,7 +213,8 @@ theorem simE (O : Oracle) (cfg : Config) : ∀ (e : Expr), fragE e = true → ok
       exact ⟨trivial, hA⟩
   | .attr i v a cx, hf, hok, hnt => by
       intro n c' d n' hv
-      simp only [fragE] at hf
+      simp only [fragE, Bool.and_eq_true] at hf
+      replace hf := hf.1
       simp only [okT] at hok
       vopen hv
       obtain ⟨v1, d1, n1, hvv, hv⟩ := hv
@@ -271,6 +272,7 @@ theorem simE (O : Oracle) (cfg : Config) : ∀ (e : Expr), fragE e = true → ok
   | .subscript i v s cx, hf, hok, hnt => by
       intro n c' d n' hv
       simp only [fragE, Bool.and_eq_true] at hf
+      replace hf := hf.1.1
       simp only [okT, Bool.and_eq_true] at hok
       simp only [namesE, List.mem_append] at hnt
       vopen hv
@@ -369,7 +371,8 @@ theorem simE (O : Oracle) (cfg : Config) : ∀ (e : Expr), fragE e = true → ok
         (SimK.lift (respAgree_doCall O _) hk)
   | .seq i .set es cx, hf, hok, hnt => by
       intro n c' d n' hv
-      simp only [fragE] at hf
+      simp only [fragE, Bool.and_eq_true] at hf
+      replace hf := hf.1
       simp only [okT, Bool.and_eq_true] at hok
       simp only [namesE] at hnt
       vopen hv
@@ -389,7 +392,8 @@ theorem simE (O : Oracle) (cfg : Config) : ∀ (e : Expr), fragE e = true → ok
         (SimK.lift (respAgree_pure _) hk)
   | .seq i .tuple es cx, hf, hok, hnt => by
       intro n c' d n' hv
-      simp only [fragE] at hf
+      simp only [fragE, Bool.and_eq_true] at hf
+      replace hf := hf.1
       simp only [okT, Bool.and_eq_true, bne_iff_ne, ne_eq] at hok
       simp only [namesE] at hnt
       vopen hv
@@ -411,7 +415,8 @@ theorem simE (O : Oracle) (cfg : Config) : ∀ (e : Expr), fragE e = true → ok
         (SimK.lift (respAgree_pure _) hk)
   | .seq i .list es cx, hf, hok, hnt => by
       intro n c' d n' hv
-      simp only [fragE] at hf
+      simp only [fragE, Bool.and_eq_true] at hf
+      replace hf := hf.1
       simp only [okT, Bool.and_eq_true, bne_iff_ne, ne_eq] at hok
       simp only [namesE] at hnt
       vopen hv
@@ -431,7 +436,7 @@ theorem simE (O : Oracle) (cfg : Config) : ∀ (e : Expr), fragE e = true → ok
       have fa2 := ensureList_finv (W := fun _ => True) fa.frag (fun _ _ => trivial) hE
       exact SimK.congr (fun σ => eval_seq O i .list es cx σ hf) (fun σ => eval_seq O i .list es2 cx σ fa2.frag)
         (SimK.lift (respAgree_pure _) hk)
-  | .namedexpr i (.name j s cx) v, hf, hok, hnt => by
+  | .namedexpr i (.name j s .store) v, hf, hok, hnt => by
       intro n c' d n' hv
       simp only [fragE] at hf
       simp only [okT] at hok
@@ -442,9 +447,10 @@ theorem simE (O : Oracle) (cfg : Config) : ∀ (e : Expr), fragE e = true → ok
       vclose hv; obtain ⟨rfl, rfl, rfl⟩ := hv
       have hs := simE O cfg v hf hok (fun y hy => hnt y (Or.inr hy)) _ _ _ _ hvv
       simp only [List.nil_append]
-      refine SimK.congr (eval_namedexpr O i j s cx v) (eval_namedexpr O i j s cx v1) (SimK.lift ?_ hs)
+      refine SimK.congr (eval_namedexpr O i j s v) (eval_namedexpr O i j s v1) (SimK.lift ?_ hs)
       intro x σ τ h
       exact ⟨rfl, h.set_both s x⟩
+  | .namedexpr _ (.name _ _ .load) _, hf, _, _ | .namedexpr _ (.name _ _ .del) _, hf, _, _
   | .namedexpr _ (.const ..) _, hf, _, _ | .namedexpr _ (.attr ..) _, hf, _, _ | .namedexpr _ (.subscript ..) _, hf, _, _
   | .namedexpr _ (.call ..) _, hf, _, _ | .namedexpr _ (.keyword ..) _, hf, _, _ | .namedexpr _ (.boolop ..) _, hf, _, _
   | .namedexpr _ (.unary ..) _, hf, _, _ | .namedexpr _ (.binop ..) _, hf, _, _ | .namedexpr _ (.compare ..) _, hf, _, _
